@@ -3,8 +3,9 @@
    canonical text.  All model logic is in model.ml (extracted). *)
 open Model
 
-let rec nat_of_int n = if n <= 0 then O else S (nat_of_int (n - 1))
-let rec int_of_nat = function O -> 0 | S n -> 1 + int_of_nat n
+(* nat_of_int / int_of_nat come from natconv.ml: natconv_pure.ml for the extraction that keeps nat as an inductive
+   type, natconv_int.ml for the extraction with ExtrOcamlNatInt (nat as OCaml int) *)
+open Natconv
 let rec pos_of_int n = if n = 1 then XH else if n land 1 = 1 then XI (pos_of_int (n lsr 1)) else XO (pos_of_int (n lsr 1))
 let z_of_int n = if n = 0 then Z0 else if n > 0 then Zpos (pos_of_int n) else Zneg (pos_of_int (-n))
 let rec int_of_pos = function XH -> 1 | XO p -> 2 * int_of_pos p | XI p -> 2 * int_of_pos p + 1
@@ -137,7 +138,7 @@ let () =
       (match get_tabs () with
        | Inr t ->
          let gi = (match !cur_gi with Some g -> g | None -> failwith "no grammar") in
-         let r = parse_from_tab (memo_table vi v t) (is_object v) gi.gi_rules (linear_act !cur_act) (nat_of_int fuel) { stk = []; sp = O } inp in
+         let r = parse_from_tab (memo_table vi v t) (is_object v) gi.gi_rules (linear_act !cur_act) (nat_of_int fuel) { stk = []; sp = nat_of_int 0 } inp in
          Printf.printf "%s run %s : %s\n" !cur_id tag (show_result r)
        | Inl _ -> Printf.printf "%s run %s : nogrammar\n" !cur_id tag);
       loop ()
@@ -150,7 +151,7 @@ let () =
       (match get_tabs () with
        | Inr t ->
          let gi = (match !cur_gi with Some g -> g | None -> failwith "no grammar") in
-         let rs = history_tab (memo_table vi v t) (is_object v) gi.gi_rules (linear_act !cur_act) (nat_of_int fuel) { stk = []; sp = O } inps in
+         let rs = history_tab (memo_table vi v t) (is_object v) gi.gi_rules (linear_act !cur_act) (nat_of_int fuel) { stk = []; sp = nat_of_int 0 } inps in
          Printf.printf "%s hist %s : %s\n" !cur_id tag (String.concat " ; " (List.map show_result rs))
        | Inl _ -> Printf.printf "%s hist %s : nogrammar\n" !cur_id tag);
       loop ()
@@ -161,7 +162,7 @@ let () =
       let k = next_int () in
       let reds = read_n k (fun () -> let r = next_int () in let s = next_int () in (nat_of_int r, nat_of_int s)) in
       let gi = (match !cur_gi with Some g -> g | None -> failwith "no grammar") in
-      (match replay gi.gi_rules (linear_act !cur_act) [] inp O reds with
+      (match replay gi.gi_rules (linear_act !cur_act) [] inp (nat_of_int 0) reds with
        | Some v -> Printf.printf "%s replay %s : ok %d\n" !cur_id tag (int_of_z v)
        | None -> Printf.printf "%s replay %s : invalid\n" !cur_id tag);
       loop ()
